@@ -70,11 +70,11 @@ type Plane struct {
 	faults  map[int]*Fault
 	persist *Fault
 	armed   bool
-	paused  bool // calls are neither counted nor failed (harness-side reads of the medium)
+	paused  bool     // calls are neither counted nor failed (harness-side reads of the medium)
 	Calls   []string // the recorded dependency-call sequence since the last Reset
 	Details []string // per call: offset/length where the seam knows them
 	Fired   []string
-	FiredAt []int // positions of the calls that failed
+	FiredAt []int             // positions of the calls that failed
 	yield   func(site string) // scheduler hook (sched engine); nil otherwise
 }
 
